@@ -1,2 +1,9 @@
-// Package c20 holds the check for property C20.
+// Package c20 decides property C20 (RegExp results are independent of engine and fast path; indices are UTF-16
+// exact) by bounded-exhaustive differential enumeration: every pattern of a weight bound over a small atom
+// alphabet x every flag string x every subject of a few symbols (ASCII, line terminators, case-folding oddities,
+// BMP, astral pair, lone surrogates) x every start position is run through exec, test, match, matchAll, replace,
+// search and split on variants of the same regular expression that exercise Go regexp vs regexp2 (P vs P(?=), and
+// the lazily built regexp2 of the same object for lastIndex > 0) and the optimised vs the generic protocol path
+// (own exec, subclass, patched prototype); the structural dumps of all variants must be identical.
+// See NOTES.md for rings, oracle, findings and mutants.
 package c20
